@@ -949,8 +949,22 @@ impl Interp {
             }
         }));
         let loads = stats.borrow().seek_starts - before;
-        let fp = match self.cursors.get(&i).and_then(|c| c.verif_fingerprint()) {
-            Some(v) => v.iter().map(|o| o.to_string()).collect::<Vec<_>>().join(","),
+        // state-level observables: recorded offset and in-block position per index level, and
+        // the position of the data cursor
+        let fp = match self.cursors.get(&i) {
+            Some(c) => {
+                let pos = |p: Option<usize>| p.map(|x| x.to_string()).unwrap_or_else(|| "-".into());
+                let (ipos, dpos) = c.verif_positions();
+                let idx = match (c.verif_fingerprint(), ipos) {
+                    (Some(v), Some(ps)) => v.iter().zip(ps.iter()).map(|(o, p)| format!("{}@{}", o, pos(*p))).collect::<Vec<_>>().join(","),
+                    _ => "none".into(),
+                };
+                let d = match dpos {
+                    Some(p) => pos(p),
+                    None => "none".into(),
+                };
+                format!("{};d={}", idx, d)
+            }
             None => "none".into(),
         };
         let (f1, dead) = match r {
